@@ -45,11 +45,17 @@ func (p *typedPlug) RetryPolicy() exponential.Policy {
 	return p.simplePlug.RetryPolicy()
 }
 
+// ptypedPlug announces its response as a POINTER to a struct: the stores then decode into what Response() hands out.
+type ptypedPlug struct{ typedPlug }
+
+func (p *ptypedPlug) Response() any { return &TResp{} }
+
 func storageRegistry() *registry.Register {
 	reg := registry.New()
 	reg.MustRegister(&simplePlug{name: "act"})
 	reg.MustRegister(&simplePlug{name: "chk", check: true})
 	reg.MustRegister(&typedPlug{simplePlug{name: "typed"}})
+	reg.MustRegister(&ptypedPlug{typedPlug{simplePlug{name: "ptyped"}}})
 	return reg
 }
 
@@ -79,6 +85,10 @@ func (s storeShape) action(name string, check bool, n int) *workflow.Action {
 	if v%3 == 1 && !check {
 		a.Plugin = "typed"
 		a.Req = TReq{N: v, List: []string{"x", name}, M: map[string]int{"k": v}}
+	}
+	if v%3 == 2 && !check {
+		a.Plugin = "ptyped"
+		a.Req = TReq{N: v, List: []string{"y", name}, M: map[string]int{"p": v}}
 	}
 	if v%2 == 1 {
 		a.Key = workflow.NewV7()
@@ -332,11 +342,17 @@ type updOp struct {
 // number of state kinds: 0 running(start) 1 completed(start,end ns) 2 failed 3 reset 4 attempts[ok] 5 attempts[err] 6 attempts[err(wrapped),ok] 7 attempts cleared(running)
 const updKinds = 8
 
-func respFor(a *workflow.Action) any {
-	if a.Plugin == "typed" {
-		return TResp{OK: true, Vals: []int{1, 2}}
+func respFor(a *workflow.Action) any { return respN(a, 0) }
+
+// respN: the response of the n-th attempt (every attempt gets a different one).
+func respN(a *workflow.Action, n int) any {
+	switch a.Plugin {
+	case "typed":
+		return TResp{OK: n%2 == 0, Vals: []int{1, 2, n}}
+	case "ptyped":
+		return &TResp{OK: n%2 == 0, Vals: []int{3, n}}
 	}
-	return SResp{Arg: "resp:" + a.Name}
+	return SResp{Arg: fmt.Sprintf("resp%d:%s", n, a.Name)}
 }
 
 // applyUpd mutates the object (the same way on the written plan and on the reference) and reports whether the op applies.
@@ -392,8 +408,9 @@ func applyUpd(p *workflow.Plan, op updOp, step int) (obj objRef, ok bool) {
 			st.Status, st.Start, st.End = workflow.Failed, t, t.Add(time.Millisecond)
 		case 6:
 			a.Attempts = []*workflow.Attempt{
-				{Err: &plugins.Error{Code: 7, Message: "outer", Wrapped: &plugins.Error{Code: 8, Message: "inner", Permanent: true}}, Start: t, End: t.Add(time.Millisecond)},
-				{Resp: respFor(a), Start: t.Add(time.Second), End: t.Add(2 * time.Second)}}
+				// a partial result next to the error, then a different final result: every attempt keeps its own response
+				{Resp: respN(a, 1), Err: &plugins.Error{Code: 7, Message: "outer", Wrapped: &plugins.Error{Code: 8, Message: "inner", Permanent: true}}, Start: t, End: t.Add(time.Millisecond)},
+				{Resp: respN(a, 2), Start: t.Add(time.Second), End: t.Add(2 * time.Second)}}
 			st.Status, st.Start, st.End = workflow.Completed, t, t.Add(2*time.Second)
 		case 7:
 			a.Attempts = nil
@@ -771,8 +788,8 @@ func init() {
 	register(&PropDef{
 		ID:    "C13",
 		Level: "exploration",
-		Rule: "plan shapes from a grammar (1-2 blocks x 1-2 sequences x 1-2 actions x {no checks, each single group at plan level, each single group at block level, all ten groups}) x field variants (meta, group id, keys, delays, concurrency, tolerance -1/0/2, timeouts, retries, two typed request types); " +
-			"for every shape: Create, Read, every single update kind on every object, Read of a never created id, Delete, Read of the deleted id; on a small plan ALL sequences of updates up to depth 3 (4) over {Running, Completed, Failed, reset, attempts [ok] / [err] / [err(wrapped), ok] / cleared} x every object, with a Read after every step; a Create that FAILS (request that cannot be encoded at every action position of every shape) leaves the id unreadable and non-existent; " +
+		Rule: "plan shapes from a grammar (1-2 blocks x 1-2 sequences x 1-2 actions x {no checks, each single group at plan level, each single group at block level, all ten groups}) x field variants (meta, group id, keys, delays, concurrency, tolerance -1/0/2, timeouts, retries, three request/response type pairs, one announcing its response as a pointer); " +
+			"for every shape: Create, Read, every single update kind on every object, Read of a never created id, Delete, Read of the deleted id; on a small plan ALL sequences of updates up to depth 3 (4) over {Running, Completed, Failed, reset, attempts [ok] / [err] / [response+err(wrapped), another response] / cleared} x every object, with a Read after every step; a Create that FAILS (request that cannot be encoded at every action position of every shape) leaves the id unreadable and non-existent; " +
 			"oracle: structural equality (nanosecond times, typed requests/responses, wrapped errors, order) with a reference copy mutated in lock step; for both vaults when the CosmosDB fake is available; distinct_nontrivial = cases other than the minimal plan without updates",
 		Assumptions: []string{"CosmosDB is exercised over the package's own fake client only; a disagreement there counts only when traced to package code", "for CosmosDB the order of the actions inside a group is not checked: it comes from the service evaluating ORDER BY c.pos, which the fake client ignores", "an empty non-nil Meta slice and a nil one are the same definition"},
 		Items:       func(tier string) []WorkItem { return shardItems("C13", 16) },
